@@ -380,7 +380,7 @@ func streamC04(c *Ctx) {
 	var first []string
 	for _, f := range firstBlocks() {
 		for i, src := range f.progs {
-			if c.Tier != "quick" || f.name == "regress" || f.name == "callee" || i%3 == int(c.Seed%3) {
+			if c.Tier != "quick" || f.name == "regress" || f.name == "callee" || i%4 == int(c.Seed%4) {
 				first = append(first, src)
 				famIns[src] = f.ins
 				handPicked[src] = true
